@@ -15,6 +15,8 @@ var checks = map[string]func(*lib.Run){
 	"C04": lib.CheckC04,
 	"C05": lib.CheckC05,
 	"C06": lib.CheckC06,
+	"C07": lib.CheckC07,
+	"C08": lib.CheckC08,
 	"C11": lib.CheckC11,
 	"C12": lib.CheckC12,
 	"C13": lib.CheckC13,
